@@ -612,6 +612,8 @@ class Exec:
             m = re.match(r'\{(alloc\d+): &', c[1])
             if m:
                 return self.static_ref(m.group(1))
+            if c[1].split('::')[-1] == 'UNIX_EPOCH':
+                return Adt('SystemTime', None, [0])
             cv = self.prog.const_values.get(c[1].split('::')[-1])
             if cv is not None and cv[0] != 'path':
                 return self.const(fr, cv)
